@@ -142,6 +142,11 @@ def subchecks(tier):
     w = dict(common.full_profile().weights)
     w.update({"schedule": 0.4, "capacity": 0.4, "tracker": 0.0})
     prof = S.Profile(ALLOWED, weights=w, numeric="cont", max_nodes=3, max_classes=3, plans=("max_time",), horizon=(3.0, 14.0),
-                     budget=800, resumptions=(2, 5), excluded=common.EXCL["C16"] + ("pause_busy_time_priority",))
+                     budget=800, resumptions=(2, 5), finite_arrivals=0.3, excluded=common.EXCL["C16"] + ("pause_busy_time_priority",))
+    wj = {"routing_objects": 0.3, "self_loops": 0.4, "priorities": 0.3, "capacity": 0.3, "discipline": 0.5, "batching": 0.2, "reneging": 0.2, "inf": 0.2}
+    near = S.Profile(list(wj), weights=wj, numeric="jitter", max_nodes=3, max_classes=2, plans=("max_time",), horizon=(3.0, 12.0), budget=800,
+                     resumptions=(3, 6), load="heavy", finite_arrivals=0.2)
     return [SubCheck("split", execute, strategy=S.netspec(prof), n={"quick": 4800, "thorough": 30000}, kind="metamorphic",
-                     rule="unsplit vs split simulate_until_max_time of the same (spec, seed)")]
+                     rule="unsplit vs split simulate_until_max_time of the same (spec, seed)"),
+            SubCheck("near_ties", execute, strategy=S.netspec(near), n={"quick": 4800, "thorough": 30000}, kind="metamorphic",
+                     rule="same relation on grid times with 1e-13-scale jitter: many events within 1e-12 of each other but never equal (exact ties are discarded); random choices (SIRO, probabilistic routing) make any extra random draw visible")]
